@@ -1241,7 +1241,7 @@ func Run(r *ev.Run) {
 		"cache-consistent view = cache off, or no mutating call since the handle was opened / Reset(); everything else on a cached v1 handle is judged by monotonicity only",
 		"listing lines are identified by creation time in v1 (rotated file name, unique) and by key-ring seqnum/state in v2 (creation times there have second resolution)",
 	}
-	n := r.Pick(400, 8000)
+	n := r.Pick(300, 8000)
 	workers := r.Pick(4, 8)
 	start := time.Now()
 	var wg sync.WaitGroup
